@@ -83,6 +83,9 @@ type VC struct {
 	isErrTargets map[string]bool
 	boxes        map[Term]boxInfo
 	stableCache  map[*ssa.Global]Term
+	elemInfo     map[Term]elemInfo
+	slicePtr     map[Term]Term
+	prov         map[Term]Term // value term -> untouched entry-state value it was loaded from
 	exit         *State
 	exitResults  []Term
 }
@@ -306,7 +309,7 @@ func (vc *VC) finalizeFrames() {
 
 func (vc *VC) alloc(st *State, name string) Term {
 	r := vc.sc.Fresh(name, "Ref")
-	vc.sc.Def(And(Not(Eq(r, "nilref")), Eq(sx("root", r), r), Eq(sx("birth", r), st.clk), Eq(sx("ftag", r), "(- 1)")))
+	vc.sc.Def(And(Not(Eq(r, "nilref")), Eq(sx("root", r), r), Eq(sx("birth", r), st.clk), Eq(sx("ftag", r), "(- 1)"), Eq(sx("ebase", r), r), Eq(sx("eidx", r), "0")))
 	nc := vc.sc.Fresh("clk", "Int")
 	vc.sc.Def(Eq(nc, sx("+", st.clk, "1")))
 	st.clk = nc
@@ -327,8 +330,8 @@ func (vc *VC) older(st *State, v Term, sort string) {
 	case "Ref":
 		vc.sc.Assume(st.reach, sx("<", sx("birth", sx("root", v)), st.clk))
 	case "Slice":
-		vc.sc.Assume(st.reach, And(sx("<", sx("birth", sx("root", sx("s-base", v))), st.clk),
-			sx("<=", "0", sx("s-off", v)), sx("<=", "0", sx("s-len", v)), sx("<=", sx("s-len", v), sx("s-cap", v))))
+		vc.sc.Assume(st.reach, And(sx("<", sx("birth", sx("root", vc.sptr(v))), st.clk),
+			sx("<=", "0", sx("s-len", v)), sx("<=", sx("s-len", v), sx("s-cap", v))))
 	}
 }
 
@@ -569,11 +572,17 @@ func (fr *Frame) define(v ssa.Value, t Term) Term {
 	if f, ok := vc.fnTerms[t]; ok {
 		vc.fnTerms[name] = f
 	}
-	if p, ok := fr.prov[t]; ok {
-		fr.prov[name] = p
+	if p, ok := fr.vc.prov[t]; ok {
+		fr.vc.prov[name] = p
 	}
 	if b, ok := vc.boxes[t]; ok {
 		vc.boxes[name] = b
+	}
+	if ei, ok := vc.elemInfo[t]; ok {
+		vc.elemInfo[name] = ei
+	}
+	if sp, ok := vc.slicePtr[t]; ok {
+		vc.slicePtr[name] = sp
 	}
 	return name
 }
